@@ -366,6 +366,15 @@ func (w *World) CallersOf(fn *ssa.Function) ([]CallSite, bool) {
 // Reachable returns the target functions reachable from the roots through
 // calls, go and defer statements.
 func (w *World) Reachable(roots ...*ssa.Function) map[*ssa.Function]bool {
+	return w.reachable(true, roots...)
+}
+
+// ReachableSameGoroutine is Reachable without following go statements.
+func (w *World) ReachableSameGoroutine(roots ...*ssa.Function) map[*ssa.Function]bool {
+	return w.reachable(false, roots...)
+}
+
+func (w *World) reachable(followGo bool, roots ...*ssa.Function) map[*ssa.Function]bool {
 	g := w.CG()
 	seen := map[*ssa.Function]bool{}
 	var work []*ssa.Function
@@ -380,6 +389,9 @@ func (w *World) Reachable(roots ...*ssa.Function) map[*ssa.Function]bool {
 		work = work[:len(work)-1]
 		allInstrs(f, func(in ssa.Instruction) {
 			if c, ok := in.(ssa.CallInstruction); ok {
+				if _, isGo := in.(*ssa.Go); isGo && !followGo {
+					return
+				}
 				for _, callee := range g.callees[c] {
 					if !seen[callee] {
 						seen[callee] = true
